@@ -43,13 +43,13 @@ theorem stepJob_rotSync {cfg : Cfg} (hg : cfg.Good) {s : St} {d : Disk} {j : Job
 theorem stepJob_rotSetMeta {cfg : Cfg} (hg : cfg.Good) {s : St} {d : Disk} {j : Job} {m : Nat} {rot : Bool}
     (hpc : j.pc = .rotSetMeta m) :
     stepJob cfg s d j rot .ok =
-      some ({ s with job := some { j with pc := .rotRemove m } }, { d with current := some m }) := by
+      some ({ s with job := some { j with pc := .rotRemove m }, limbo := none }, { d with current := some m }) := by
   simp [stepJob, hpc, hg.msbsm, Disk.exec, Disk.apply, Outcome.failed]
 
 theorem stepJob_rotRemove {cfg : Cfg} {s : St} {d : Disk} {j : Job} {m : Nat} {rot : Bool}
     (hpc : j.pc = .rotRemove m) :
     stepJob cfg s d j rot .ok =
-      some ({ s with manifestFd := some m, manifestOpen := true, manifestFailed := false,
+      some ({ s with manifestFd := some m, manifestOpen := true, manifestFailed := false, limbo := none,
                      job := some { j with pc := .install } },
             match s.manifestFd with
             | some old => { d with manifests := d.manifests.erase old }
